@@ -108,6 +108,39 @@ static string sample(string const& op, vecu const& p, Engine& rng)
             out += (i ? " " : "") + vh::hexd(d(rng));
         return out;
     }
+    if (op == "normop" && n == 8 && p[0] >= 1 && p[0] <= 3 && p[5] <= 8 && p[6] <= 8 && p[7] <= 8)
+    {
+        // user-written special members of NormalDistribution (spare-value handling):
+        // kind m1 sd1 m2 sd2 pre1 pre2 k
+        NormalDistribution<double> a(D(p[1]), D(p[2]));
+        NormalDistribution<double> b(D(p[3]), D(p[4]));
+        string out;
+        auto emit = [&](double v) { out += (out.empty() ? "" : " ") + vh::hexd(v); };
+        for (std::uint64_t i = 0; i < p[5]; ++i)
+            emit(a(rng));
+        for (std::uint64_t i = 0; i < p[6]; ++i)
+            emit(b(rng));
+        if (p[0] == 1)
+        {
+            NormalDistribution<double> c(std::move(a));
+            for (std::uint64_t i = 0; i < p[7]; ++i)
+                emit(c(rng));
+            for (std::uint64_t i = 0; i < p[7]; ++i)
+                emit(a(rng));
+        }
+        else
+        {
+            if (p[0] == 2)
+                a = b;
+            else
+                a = std::move(b);
+            for (std::uint64_t i = 0; i < p[7]; ++i)
+                emit(a(rng));
+            for (std::uint64_t i = 0; i < p[7]; ++i)
+                emit(b(rng));
+        }
+        return out.empty() ? string("-") : out;
+    }
     if (op == "gamma" && n == 3 && p[2] >= 1 && p[2] <= 64)
     {
         GammaDistribution<double> d(D(p[0]), D(p[1]));
